@@ -503,15 +503,18 @@ def szxLoad (fx : Fixes) (inflate : Bytes → Option Bytes) (f : Bytes) (r : Mac
 
 def scrSize : Nat := 6912
 
-/-- `scr::load`: `JP 0x8000` at 0x8000, PC there, the file into the first 6912 bytes of the bank
-mapped at 0x4000. -/
+/-- what `scr::load` does once it knows the bank mapped at 0x4000: `JP 0x8000` at 0x8000, PC there,
+the file into the first 6912 bytes of the bank, screen device refreshed -/
+def scrApply (f : Bytes) (r : Machine) (bank : Nat) : Machine :=
+  let m := ((r.write 0x8000 0xC3).write 0x8001 0x00).write 0x8002 0x80
+  let m := { m with cpu := { m.cpu with pc := 0x8000 } }
+  { m with ram := setBank m.ram bank (f ++ (m.ram bank).drop scrSize) }.refresh
+
+/-- `scr::load` -/
 def scrLoad (f : Bytes) (r : Machine) : Except Err Machine :=
   if f.length ≠ scrSize then .error .invalidScr else
   match r.page 1 with
   | .rom _ => .error .scrMachine
-  | .ram bank =>
-    let m := ((r.write 0x8000 0xC3).write 0x8001 0x00).write 0x8002 0x80
-    let m := { m with cpu := { m.cpu with pc := 0x8000 } }
-    .ok { m with ram := setBank m.ram bank (f ++ (m.ram bank).drop scrSize) }.refresh
+  | .ram bank => .ok (scrApply f r bank)
 
 end ZxVerif.Snap
